@@ -3,6 +3,12 @@ use cosmwasm_std::{Deps, Response, StdError, StdResult, Uint128};
 
 /// Validates that the decimals aren't zero and returns the decimal placeholder accordinglys
 pub fn validate_decimal_places(decimal_places: u8) -> StdResult<Uint128> {
+    // verification hook: allow a reduced fixed-point scale (compiled out unless --cfg margined_verif)
+    #[cfg(margined_verif)]
+    if decimal_places >= 1u8 {
+        return Ok(Uint128::from(10u128.pow(decimal_places as u32)));
+    }
+
     // check that the value less than 6dp
     if decimal_places < 6u8 {
         return Err(StdError::generic_err(
@@ -64,6 +70,11 @@ pub fn validate_eligible_collateral(deps: Deps, input: String) -> StdResult<Asse
             denom: input.to_string(),
         },
         "uwasm" => AssetInfo::NativeToken {
+            denom: input.to_string(),
+        },
+        // verification hook: reduced-scale native denoms (compiled out unless --cfg margined_verif)
+        #[cfg(margined_verif)]
+        "dwasm" | "cwasm" => AssetInfo::NativeToken {
             denom: input.to_string(),
         },
         _ => {
